@@ -213,6 +213,16 @@ def _pol_calls(rng):
                                              np.ascontiguousarray(b1.knots, dtype=float), np.ascontiguousarray(b2.knots, dtype=float),
                                              np.ascontiguousarray(sf.coeffs), p1, p2] + CL + [1.0]
     out = [("adv", "poloidal_advection_step_expl", [a.copy() if isinstance(a, np.ndarray) else a for a in base] + [cubic, nul], [0])]
+    # explicit scheme with a strong potential that does not vanish at the radial edges: feet leave the domain on both sides
+    # (by margins far above rounding), so the boundary branches of both boundary modes are reached
+    phi2 = 25.0 * phi + 2.0 * np.sin(q[:, None] + 0.7) * (0.5 + s)[None, :]
+    sp2 = Spline2D(b1, b2)
+    it.compute_interpolant(np.ascontiguousarray(phi2), sp2)
+    strong = list(base)
+    strong[15] = np.ascontiguousarray(sp2.coeffs)
+    for nb in (False, True):
+        out.append(("adv", "poloidal_advection_step_expl",
+                    [a.copy() if isinstance(a, np.ndarray) else a for a in strong] + [cubic, nb], [0]))
     out.append(("adv", "poloidal_advection_step_impl", [a.copy() if isinstance(a, np.ndarray) else a for a in base] + [1e-10, cubic, nul], [0]))
     return out
 
